@@ -765,8 +765,7 @@ def replay(path):
     if c.get("leg") == "model":
         for s in c["interleaving"]:
             print("  thread %d  %-28s %s" % (s["thread"], s["op"], s["step"]))
-        rows = c["summaries"] + [{"kind": "plan", "slots": [[p[k]] for k in range(len(p))]} for p in c["programs"]]
-        # the recorded programs are one assignment; the plan lines above allow every thread each of them
+        # the plan allows every thread each of the recorded programs' operations per slot (includes the recorded assignment)
         slots = [sorted(set(p[k] for p in c["programs"])) for k in range(len(c["programs"][0]))]
         rows = c["summaries"] + [{"kind": "plan", "slots": slots}]
         r, viol = run_model("replay", rows, c["T"], c["fuse_silent_reads"], None, timeout=900, workers=4)
